@@ -93,12 +93,14 @@ def shapes(tier):
             inner = els_[0].text()
             for o, e in zip(ops, els_[1:]):
                 inner += f" {o} {e.text()}"
-            for ctx in ('assign', 'component', 'size-after', 'size-before', 'size-inter-after', 'size-inter-before', 'size-inter-ext-after', 'size-inter-ext-before'):
+            for ctx in ('assign', 'component', 'ref-assign', 'ref-component', 'size-after', 'size-before', 'size-inter-after', 'size-inter-before', 'size-inter-ext-after', 'size-inter-ext-before'):
                 if ctx in ('size-after', 'size-before') and (len(els_) > 1 or tier == 'quick' and els_[0].kind == 'str'):
                     continue
                 if ctx.startswith('size-inter-ext') and (len(els_) > 1 and tier == 'quick' and not (els_[0].kind != els_[1].kind)):
                     continue
                 if 'EXCEPT' in ops and ctx not in ('assign', 'component', 'size-inter-after'):
+                    continue
+                if ctx.startswith('ref-') and (len(els_) > 1 or (tier == 'quick' and els_[0].kind == 'str' and len(els_[0].a) > 1)):
                     continue
                 if ctx.startswith('size-inter') and ('^' in ops or (tier == 'quick' and len(els_) > 1 and els_[0].kind == els_[1].kind == 'str')):
                     # FROM and SIZE joined by an intersection inside ONE constraint (folded by fold_constraint_set)
@@ -117,6 +119,9 @@ def shapes(tier):
                 elif ctx == 'size-inter-ext-before':
                     c = f"(SIZE (1..4, ...) ^ FROM ({inner}))"
                 body = f"T ::= {ty} {c}" if ctx != 'component' else f"T ::= SEQUENCE {{ a {ty} {c} }}"
+                if ctx in ('ref-assign', 'ref-component'):
+                    # the constrained type is a REFERENCE to the known-multiplier string type
+                    body = f"Name ::= {ty} " + (f"T ::= Name {c}" if ctx == 'ref-assign' else f"T ::= SEQUENCE {{ a Name {c} }}")
                 text = f"M DEFINITIONS AUTOMATIC TAGS ::= BEGIN {body} END"
                 role = ' '.join([els_[0].role()] + [f"{o} {e.role()}" for o, e in zip(ops, els_[1:])])
                 out.append((f"C15 {ty} FROM({role}) @{ctx}", text, {'ty': ty, 'els': els_, 'ops': ops, 'ctx': ctx}))
@@ -156,7 +161,7 @@ def judge(items, info, chk, pc, nwarn):
     t = structs.get('T')
     if t is None:
         return [('missing', 'T not generated')]
-    if info['ctx'] == 'component':
+    if info['ctx'] in ('component', 'ref-component'):
         f = [x for x in t.fields if x.name == 'a']
         ritems = []
         for a in (f[0].attrs if f else []):
